@@ -4,7 +4,8 @@
    Build<Kind> of girparser.c/girnode.c against the property layer <Kind>Clauses; every container shape (member
    counts 0..MaxCnt per section, odd/even index arrays, every subset of fields with an embedded callback): the
    writer's cursor walk against the format's closed-form section arithmetic (aligned, in bounds, no overlap, no hole).
-   The what-if configurations Typelib_w_*.cfg (Strict: inputs on which the transcription deviates) must FAIL.
+   The witness configurations must FAIL: Typelib_w_field.cfg (the current code on the inputs of the known findings) and one
+   Typelib_w_*.cfg per what-if switch Dev (behaviour of an earlier version, repaired by a fix: commit).
 2. tla/TypelibCases.tla exports exactly those case sets (Strict, valid documents only) plus the header-level case
    sets; harness/tlcases.py wraps them into abstract GIR documents; seeded random documents in the same schema go
    beyond the exhaustive bound (nested types, cross-namespace references, attributes on every node, interleaved
@@ -134,9 +135,17 @@ def run():
                                 label='Build<Kind> => <Kind>Clauses, all three spellings of every boolean attribute, types to depth 3')))
                 mc_jobs.append((None, pool.submit(ck.tlc_mc, 'TypelibMC', 'Typelib_layout3.cfg', workers=W, timeout=9000, coverage=False,
                                 label='writer cursor walk vs format section arithmetic vs transcribed accessors, every container shape with counts 0..3')))
-            for cfg, what in (('Typelib_w_field.cfg', 'field readable/bits as transcribed'), ('Typelib_w_sig.cfg', 'signature writers as transcribed')):
-                mc_jobs.append((cfg, pool.submit(ck.tlc_mc, 'TypelibMC', cfg, workers=1, timeout=3000, coverage=False, expect_ok=False,
-                                                 label='what-if (must fail): ' + what)))
+            # witness configurations (must FAIL): the current code on the inputs of the known findings, and one per what-if switch
+            # for the behaviour of an earlier version (each repaired by a fix: commit)
+            wpool = ThreadPoolExecutor(max(1, NCPU // 2))
+            for cfg, what in (('Typelib_w_field.cfg', 'as-is: field readable= inverted, bits= not written (known findings)'),
+                              ('Typelib_w_sig.cfg', 'Dev skip_only_function (before ca5fac5)'),
+                              ('Typelib_w_prop.cfg', 'Dev prop_deprecated_unread (before 43698fe)'),
+                              ('Typelib_w_attrs.cfg', 'Dev attrs_to_container (before f9052ff)'),
+                              ('Typelib_w_rattrs.cfg', 'Dev cb_return_attrs_dropped (before 803c7ba)'),
+                              ('Typelib_w_unichar.cfg', 'Dev no_unichar_constant (before 403fa2b)')):
+                mc_jobs.append((cfg, wpool.submit(ck.tlc_mc, 'TypelibMC', cfg, workers=1, timeout=3000, coverage=False, expect_ok=False,
+                                                  label='witness (must fail): ' + what)))
             if NCPU < 12:                       # few cores: one thing at a time
                 for _cfg, _f in mc_jobs:
                     _f.exception()
